@@ -139,70 +139,67 @@ Definition after_next (r : rstate) (x1 : rx) : rstate :=
 Definition of_outcome {A} (r : rstate) (o : outcome A) (k : A -> rstate) : rstate :=
   match o with Ok a => k a | Crash => r_die r RCrashed | _ => r_die r RPanicked end.
 
-Definition rx_step (m : mode) (w : vwidth) (hv : bool) (cap : Z) (mm : mem) (r : rstate) : option (rstate * event) :=
-  if r_finished r then None else
+(* the receiver's state after its next shared access (and the private code that follows it) ... *)
+Definition rx_next (m : mode) (w : vwidth) (hv : bool) (cap : Z) (mm : mem) (r : rstate) : rstate :=
   let x := r_rx r in
   match r_pc r with
   | RIdle =>
-      let tail := get64 mm (tail_idx cap) in
-      Some (if tail >? next_record x then r_set r RVal1 else r_finish r x RNone,
-            (1, GetVolatile, 0, tail_idx cap, 8, 0, 0, tail))
+      if get64 mm (tail_idx cap) >? next_record x then r_set r RVal1 else r_finish r x RNone
   | RVal1 =>
-      let it := get64 mm (intent_idx cap) in
-      Some (of_outcome r (validate_cmp m w cap (next_record x) it)
-              (fun v => if v then r_set r (RLen (next_record x) (lapped x)) else r_set r RLatest),
-            (1, GetVolatile, 0, intent_idx cap, 8, 0, 0, it))
-  | RLatest =>
-      let c := get64 mm (latest_idx cap) in
-      Some (r_set r (RLen c (lapped x + 1)), (1, Get, 0, latest_idx cap, 8, 0, 0, c))
+      of_outcome r (validate_cmp m w cap (next_record x) (get64 mm (intent_idx cap)))
+        (fun v => if v then r_set r (RLen (next_record x) (lapped x)) else r_set r RLatest)
+  | RLatest => r_set r (RLen (get64 mm (latest_idx cap)) (lapped x + 1))
   | RLen c lp =>
       let ro := Z.land (wrap32 c) (cap - 1) in
-      let l := get32 mm ro in
-      Some (of_outcome r (a1 <- align32 m l RA ;; add64 m c a1) (fun nr => r_set r (RType c lp nr)),
-            (1, Get, 0, ro, 4, 0, 0, l))
+      of_outcome r (a1 <- align32 m (get32 mm ro) RA ;; add64 m c a1) (fun nr => r_set r (RType c lp nr))
   | RType c lp nr =>
       let ro := Z.land (wrap32 c) (cap - 1) in
-      let t := get32 mm (ro + 4) in
-      Some (if t =? PADDING then r_set r (RLen0 lp nr)
-            else after_next r {| cursor := c; next_record := nr; record_offset := ro; lapped := lp |},
-            (1, Get, 0, ro + 4, 4, 0, 0, t))
+      if get32 mm (ro + 4) =? PADDING then r_set r (RLen0 lp nr)
+      else after_next r {| cursor := c; next_record := nr; record_offset := ro; lapped := lp |}
   | RLen0 lp nr =>
-      let l := get32 mm 0 in
-      Some (of_outcome r (a2 <- align32 m l RA ;; add64 m nr a2)
-              (fun nr2 => after_next r {| cursor := nr; next_record := nr2; record_offset := 0; lapped := lp |}),
-            (1, Get, 0, 0, 4, 0, 0, l))
+      of_outcome r (a2 <- align32 m (get32 mm 0) RA ;; add64 m nr a2)
+        (fun nr2 => after_next r {| cursor := nr; next_record := nr2; record_offset := 0; lapped := lp |})
   | RHLen =>
-      let ro := record_offset x in
-      let l := get32 mm ro in
-      Some (of_outcome r (sub32 m l HL)
-              (fun len => if hv then r_set r (RHType len)
-                          else if len >? SCRATCH then r_finish r x (RErr InsufficientCapacity) else r_set r (RHType len)),
-            (1, Get, 0, ro, 4, 0, 0, l))
+      of_outcome r (sub32 m (get32 mm (record_offset x)) HL)
+        (fun len => if hv then r_set r (RHType len)
+                    else if len >? SCRATCH then r_finish r x (RErr InsufficientCapacity) else r_set r (RHType len))
   | RHType len =>
-      let ro := record_offset x in
-      let t := get32 mm (ro + 4) in
-      Some (if hv then r_set r (RValH len t)
-            else if negb (known_type t) then r_die r RPanicked else r_set r (RCopy len t),
-            (1, Get, 0, ro + 4, 4, 0, 0, t))
+      let t := get32 mm (record_offset x + 4) in
+      if hv then r_set r (RValH len t)
+      else if negb (known_type t) then r_die r RPanicked else r_set r (RCopy len t)
   | RValH len ty =>
-      let it := get64 mm (intent_idx cap) in
-      Some (of_outcome r (validate_cmp m w cap (cursor x) it)
-              (fun v => if negb v then r_finish r x (RErr UnableToKeepUp)
-                        else if len >? SCRATCH then r_finish r x (RErr InsufficientCapacity)
-                        else if negb (known_type ty) then r_die r RPanicked
-                        else r_set r (RCopy len ty)),
-            (1, GetVolatile, 0, intent_idx cap, 8, 0, 0, it))
+      of_outcome r (validate_cmp m w cap (cursor x) (get64 mm (intent_idx cap)))
+        (fun v => if negb v then r_finish r x (RErr UnableToKeepUp)
+                  else if len >? SCRATCH then r_finish r x (RErr InsufficientCapacity)
+                  else if negb (known_type ty) then r_die r RPanicked
+                  else r_set r (RCopy len ty))
   | RCopy len ty =>
       let ro := record_offset x in
-      Some (if (len <? 0) || (ro + HL + len >? buf_len cap) then r_die r RPanicked
-            else r_set r (RVal2 ty (get_bytes mm (ro + HL) (Z.to_nat len))),
-            (1, CopyFrom, -1, -1, (if len <? 0 then two64 + len else len), ro + HL, 0, 0))
+      (* copy_from(0, buffer, ro + 8, len): the bounds checks run after the access has been reported *)
+      if (len <? 0) || (ro + HL + len >? buf_len cap) then r_die r RPanicked
+      else r_set r (RVal2 ty (get_bytes mm (ro + HL) (Z.to_nat len)))
   | RVal2 ty bytes =>
-      let it := get64 mm (intent_idx cap) in
-      Some (of_outcome r (validate_cmp m w cap (cursor x) it)
-              (fun v => r_finish r x (if v then RMsg ty bytes else RErr UnableToKeepUp)),
-            (1, GetVolatile, 0, intent_idx cap, 8, 0, 0, it))
+      of_outcome r (validate_cmp m w cap (cursor x) (get64 mm (intent_idx cap)))
+        (fun v => r_finish r x (if v then RMsg ty bytes else RErr UnableToKeepUp))
   end.
+
+(* ... and the access itself, as the hook reports it *)
+Definition rx_event (cap : Z) (mm : mem) (r : rstate) : event :=
+  let x := r_rx r in
+  match r_pc r with
+  | RIdle => (1, GetVolatile, 0, tail_idx cap, 8, 0, 0, get64 mm (tail_idx cap))
+  | RVal1 | RValH _ _ | RVal2 _ _ => (1, GetVolatile, 0, intent_idx cap, 8, 0, 0, get64 mm (intent_idx cap))
+  | RLatest => (1, Get, 0, latest_idx cap, 8, 0, 0, get64 mm (latest_idx cap))
+  | RLen c _ => let ro := Z.land (wrap32 c) (cap - 1) in (1, Get, 0, ro, 4, 0, 0, get32 mm ro)
+  | RType c _ _ => let ro := Z.land (wrap32 c) (cap - 1) in (1, Get, 0, ro + 4, 4, 0, 0, get32 mm (ro + 4))
+  | RLen0 _ _ => (1, Get, 0, 0, 4, 0, 0, get32 mm 0)
+  | RHLen => (1, Get, 0, record_offset x, 4, 0, 0, get32 mm (record_offset x))
+  | RHType _ => (1, Get, 0, record_offset x + 4, 4, 0, 0, get32 mm (record_offset x + 4))
+  | RCopy len _ => (1, CopyFrom, -1, -1, (if len <? 0 then two64 + len else len), record_offset x + HL, 0, 0)
+  end.
+
+Definition rx_step (m : mode) (w : vwidth) (hv : bool) (cap : Z) (mm : mem) (r : rstate) : option (rstate * event) :=
+  if r_finished r then None else Some (rx_next m w hv cap mm r, rx_event cap mm r).
 
 (* ---------------------------------------------------------------- the two threads under a schedule *)
 Record cstate := mkC { c_mem : mem; c_tx : tstate; c_rx : rstate; c_trace : list event (* newest first *) }.
